@@ -56,6 +56,16 @@ func (c15) Plan(tier string, seed int64) []core.Scenario {
 			}
 		}
 	}
+	// the response writer is stalled on a peer that stopped reading when the connection is ended
+	ns := 1
+	if tier == "thorough" {
+		ns = 4
+	}
+	for rep := 0; rep < ns; rep++ {
+		for _, cause := range []string{"srvcancel", "closeframe", "fin"} {
+			out = append(out, core.Sc("stalled").WithS("cause", cause).WithN("rep", rep))
+		}
+	}
 	for i := range out {
 		out[i].Seed = seed*67867967 + int64(i)
 		out[i] = out[i].WithN("noise", i%3)
@@ -89,7 +99,113 @@ func (c15) Run(sc core.Scenario) core.Result {
 	return r.Result()
 }
 
+// c15Stalled: a large response is being written to a peer that has stopped reading (the writer holds the
+// write lock inside write(2)); then the connection is ended. Handler contexts must be cancelled and, once
+// the handlers returned, nothing may be retained - while the peer is still not reading.
+func c15Stalled(sc core.Scenario, r *core.R) {
+	cause := sc.Str("cause")
+	baseline := serverConnGoroutines()
+	env := NewEnv(EnvOpt{ServerOpts: []jsonrpc.ServerOption{jsonrpc.WithServerPingInterval(50 * time.Millisecond)}})
+	defer env.Shutdown()
+	pol := noisePolicy(sc)
+	defer pol.Install()()
+	cl, err := env.NewClient(ClientOpt{Opts: []jsonrpc.Option{jsonrpc.WithNoReconnect()}})
+	if err != nil {
+		r.Inconclusive("client: %v", err)
+		return
+	}
+	bg := context.Background()
+	h := Tok("u")
+	env.Svc.Hold(h)
+	go cl.React(bg, h, 0, 10)
+	if !env.Svc.WaitEntered(h, core.Grace) {
+		r.Inconclusive("held handler not entered")
+		return
+	}
+	stalled := make(chan struct{})
+	// the request for the large response is forwarded, then the peer stops reading (and forwarding) altogether
+	env.Px.Arm(&wsproxy.Fault{Kind: wsproxy.STALL, Dir: wsproxy.C2S, Pos: 4, Match: func(fi wsproxy.FrameInfo) bool { return fi.Msg != nil && fi.Msg.Method == "S.Big" }, OnFire: func() { close(stalled) }})
+	big := Tok("b")
+	go cl.Big(bg, big, 32<<20)
+	if !core.WaitCh(stalled, core.Grace) || !core.WaitCh(env.Svc.ExitedCh(big), 2*core.Grace) {
+		r.Inconclusive("could not bring the response writer into a stalled write")
+		return
+	}
+	time.Sleep(300 * time.Millisecond) // the 32 MiB response now sits in write(2) behind full socket buffers
+	inWrite := core.Eventually(3*core.Grace, func() bool {
+		for _, sts := range serverConnGoroutines() {
+			for _, st := range sts {
+				if strings.Contains(st, "waitWrite") {
+					return true
+				}
+			}
+		}
+		return false
+	})
+	time.Sleep(150 * time.Millisecond) // let a ping tick queue up behind the writer
+	r.Obs("writer_stalled_in_write", b2i(inWrite))
+	if !inWrite {
+		dump := ""
+		for _, sts := range serverConnGoroutines() {
+			for _, st := range sts {
+				dump += core.Trunc(st, 700) + " || "
+			}
+		}
+		r.Inconclusive("the response writer is not blocked in write(2): socket buffers swallowed the response; labelled goroutines: %s", core.Trunc(dump, 3000))
+		return
+	}
+	core.Log.Note("h.end", cause+" while the response writer is stalled")
+	switch cause {
+	case "srvcancel":
+		env.CancelServerContexts()
+	default:
+		if n := env.Px.StalledInject(cause); n == 0 {
+			r.Inconclusive("no stalled connection at the proxy")
+			return
+		}
+	}
+	if !core.Eventually(core.Grace, func() bool { return env.Svc.Get(h).Ctx.Err() != nil }) {
+		r.Violate("handler-ctx-live:stalled-"+cause, "context of a handler still live %v after the connection was ended (%s) while a response write was stalled on a peer that stopped reading; events: %s", core.Grace, cause, core.Log.Tail(30))
+	}
+	env.Svc.ReleaseAll()
+	core.Eventually(core.Grace, func() bool { return len(env.Svc.Running()) == 0 })
+	var leaked map[string][]string
+	clean := core.Eventually(core.Grace, func() bool {
+		leaked = map[string][]string{}
+		for u, st := range serverConnGoroutines() {
+			if _, old := baseline[u]; !old {
+				leaked[u] = st
+			}
+		}
+		return len(leaked) == 0
+	})
+	if !clean {
+		var sb strings.Builder
+		site := ""
+		for u, sts := range leaked {
+			for _, st := range sts {
+				if sb.Len() < 2500 {
+					fmt.Fprintf(&sb, "[conn %s] %s\n", u[:8], st)
+				}
+				if site == "" {
+					site = leakSite(st)
+				}
+			}
+		}
+		r.Violate("goroutine-leak:stalled:"+site, "library goroutines still retained %v after the connection was ended (%s) while a response write was stalled and all handlers returned:\n%s", core.Grace, cause, sb.String())
+	}
+	r.Key("stalled "+cause, true)
+	r.Obs("connections_ended", 1)
+	r.Obs("handlers_in_progress", 2)
+	r.Sig(core.Log.Signature())
+	r.Sample(map[string]interface{}{"cause": cause, "work": "32 MiB response stalled in write + held unary call", "leak_free": clean})
+}
+
 func c15run(sc core.Scenario, r *core.R) {
+	if sc.Kind == "stalled" {
+		c15Stalled(sc, r)
+		return
+	}
 	cause, work := sc.Str("cause"), sc.Str("work")
 	react, flood := sc.I("react"), sc.I("flood") == 1
 	baseline := serverConnGoroutines()
